@@ -533,7 +533,7 @@ PROBES = [
     ('probe:tool-error:skool2asm:label-on-addressless-instruction', (1, 0),
      [ORG, S('isub', T('one', 1), pre=1, lab='START'), {'l': 'lab', 'name': 'NEXT'}, I('c', BASE, T('one', 2)),
       I('*', BASE + 1, T('one', 3))]),
-    # -H rewrites the 0 of OUT (C),0 (part of the instruction, like the 7 of BIT 7,A) to $00: no longer assemblable
+    # regression (fixed in dfc0c5d): -H rewrote the 0 of OUT (C),0 (part of the instruction, like the 7 of BIT 7,A) to $00
     ('probe:asm-error:hex:out-c-0', (1, 0),
      [ORG, I('c', BASE, {'k': 'raw', 'a': 0, 'n': 2, 't': -1, 'bs': [237, 113], 'refs': [], 'text': 'OUT (C),0'}),
       I(' ', BASE + 2, T('one', 3))]),
@@ -562,7 +562,7 @@ W_FORMS = ('LD HL,{}', 'LD BC,{}', 'LD ({}),HL', 'LD A,({})', 'JP {}', 'CALL {}'
 B_FORMS = ('LD A,{}', 'LD B,{}', 'ADD A,{}', 'CP {}', 'XOR {}', 'OUT ({}),A', 'IN A,({})', 'LD (HL),{}', 'LD IXh,{}', 'SUB {}',
            'AND {}', 'SBC A,{}', 'LD L,{}', 'DEFB {}', 'DEFB {},{}', 'DEFM {}', 'LD (IX+{}),{}', 'BIT 7,(IY+{})',
            'SET 0,(IX-{})', 'LD (IY-{}),{}', 'RES 3,(IX+{}),B')
-FIXED = ('BIT 7,A', 'RES 0,(HL)', 'SET 3,B', 'IM 0', 'IM 1', 'IM 2', 'RST 0', 'RST 8', 'RST 56', 'RST $38', 'RST 16',
+FIXED = ('BIT 7,A', 'RES 0,(HL)', 'SET 3,B', 'IM 0', 'IM 1', 'IM 2', 'RST 0', 'RST 8', 'RST 56', 'RST $38', 'RST 16', 'OUT (C),0',
          'IN F,(C)', 'EX AF,AF\'', 'LD A,"1"', 'LD A,"$"', 'CP "%"', 'DEFM "10 $20 %11"', 'DEFB "1,2",3', 'DEFM "a;b",";"',
          'DEFB %101,%11', 'DEFB 5%3', 'DEFB 7/2,3*4', 'LD A,%1010+1', 'DEFB "\\"",1', 'DEFM "a\\\\",0', 'DEFS 3', 'DEFS 2,$FF',
          'DEFS %11,"x"', 'LD A,(IX+0)', 'LD B,(IY-128)', 'LD (IX+127),255', 'DEFB 1-1,2-1', 'DEFW 65535,0', 'LD A,-1', 'LD BC,-1',
@@ -683,8 +683,6 @@ class G2:
                 continue
             if text.upper().startswith(('JR ', 'DJNZ ')) and number_in(text) is None:
                 continue
-            if text.upper().replace(' ', '') == 'OUT(C),0':
-                continue          # -H turns it into OUT (C),$00, which no assembler takes (reported; probe below)
             return {'k': 'raw', 'a': 0, 'n': len(data), 't': -1, 'bs': [int(b) for b in data], 'refs': [], 'text': text}
         data = [0] * (size or 1)
         return {'k': 'raw', 'a': 0, 'n': len(data), 't': -1, 'bs': data, 'refs': [], 'text': 'DEFS %d' % len(data)}
